@@ -400,6 +400,10 @@ theorem serveTCPMessage_close_iff_unwritten (s : S_dnsserver_ServerDNS) (buf : L
 
 /-! ### The listener side: `acceptTCPConn`, `serveTCP` -/
 
+/-- The store into the map of tracked connections under one name, whatever the key variable is called. -/
+def trk (tr : List (String × List String)) : List (String × List String) :=
+  tr.map fun e => (if goHasPrefix e.1 "set s.tcpConns[" then "track" else e.1, e.2)
+
 /-- A connection taken from the listener is recorded (under the lock), counted in the server's wait group
 and submitted exactly once, in that order, and the pool's error is returned; a failed `Accept` does none of
 these (a non-critical error is swallowed, any other is returned). -/
@@ -407,12 +411,12 @@ theorem acceptTCPConn_hands_over_once (s : S_dnsserver_ServerDNS) (a : AbsPtr ×
     (sub : Option String) :
     let r := acceptTCPConn s a nonCrit sub
     (a.2 ≠ none → r.1 = (if nonCrit then none else a.2) ∧ cnt "Submit" r.2 = 0 ∧ cnt "Add" r.2 = 0 ∧
-      cnt "set s.tcpConns[conn]" r.2 = 0) ∧
-    (a.2 = none → r.1 = sub ∧ cnt "Submit" r.2 = 1 ∧ cnt "Add" r.2 = 1 ∧ cnt "set s.tcpConns[conn]" r.2 = 1 ∧
-      before "Lock" "set s.tcpConns[conn]" r.2 ∧ before "set s.tcpConns[conn]" "Unlock" r.2 ∧
+      cnt "track" (trk r.2) = 0) ∧
+    (a.2 = none → r.1 = sub ∧ cnt "Submit" r.2 = 1 ∧ cnt "Add" r.2 = 1 ∧ cnt "track" (trk r.2) = 1 ∧
+      before "Lock" "track" (trk r.2) ∧ before "track" "Unlock" (trk r.2) ∧
       before "Unlock" "Add" r.2 ∧ before "Add" "Submit" r.2) := by
   obtain ⟨c, e⟩ := a
-  cases e <;> cases nonCrit <;> simp [acceptTCPConn, cnt, names, before] <;> decide
+  cases e <;> cases nonCrit <;> simp [acceptTCPConn, cnt, names, before, trk, goHasPrefix] <;> decide
 
 def lsnBody : List String := ["isStarted", "acceptTCPConn"]
 
